@@ -17,7 +17,8 @@ CONSTANTS
   AuthSetups <- AuthSetupsDef
   Forms <- FormsDef
   AltForm <- AltFormDef
-  Scales <- ScalesDef
-  Variant = "ok"
-INVARIANT NeverDone
+  Scales <- ScalesBelow
+  Variant = "readcap"
+INVARIANT HashInputOk
+INVARIANT HashedLength
 CHECK_DEADLOCK FALSE
